@@ -4,7 +4,8 @@
    certificates of Proofs/ on the model's own output.
    A tensor is a list of rows (a 1-D vector of length n is n rows of length 1). *)
 From Coq Require Import List Arith ZArith QArith Qabs Bool.
-From TLV Require Import Base.Ops Model.Prox Model.ProxDispatch Corr.Common.
+From TLV Require Import Base.Ops Base.Tensor Model.Prox Model.ProxDispatch Corr.Common.
+From TLV Require Model.Constraints.
 Import ListNotations.
 
 Definition M := list (list Q).
@@ -17,20 +18,31 @@ Inductive op :=
 | OIdentity                          (* proximal_operator with no constraint registered for the selected mode *)
 | OSvt (t : Q) (U : M) (s : list Q) (V : M)   (* U, s, V : the answer of tl.truncated_svd on the input (tape) *)
 | OProcrustes (U : M) (s : list Q) (V : M)
-(* proximal_operator(tensor, <keyword arguments>, n_const, order): the keyword arguments as written (constraint number, dict / list /
-   scalar value); the operator and its parameter are selected by the model of validate_constraints; aux = norm tape of that operator *)
-| ORouted (n_const order : nat) (specs : list (nat * cspec Q)) (aux : Q).
+(* proximal_operator(tensor, <keyword arguments>, n_const, order): the keyword arguments as written (kind, scalar / list / dict with
+   Python int keys); operator and parameter are selected by C11's model of validate_constraints (Model/Constraints.v: zvalidate,
+   through Model/ProxDispatch.validate_kwargs); aux = norm tape of the selected operator.
+   ORouted: the implementation returned; ORejected: the implementation raised ValueError *)
+| ORouted (n_const order : nat) (specs : kwargs) (aux : Q)
+| ORejected (n_const order : nat) (specs : kwargs).
 
-Definition op_of (c : nat) (p aux : Q) : op :=
-  match c with
-  | 0 => ONonneg | 1 => OSoft p | 2 => OL2 p aux | 3 => OL2sq p | 4 => OUnimodal | 5 => ONormalize | 6 => OSimplex p
-  | 7 => ONormSparsity (Z.to_nat (Qnum p)) aux | 8 => OSoftSparsity p | 9 => OSmooth p | 10 => OMonotone false
-  | 11 => OHard (Z.to_nat (Qnum p)) | _ => OIdentity
-  end%nat.
-Definition resolve (o : op) : op :=
+Definition op_of (k : Constraints.kind) (p aux : Q) : op :=
+  match k with
+  | Constraints.KNonNeg => ONonneg | Constraints.KL1 => OSoft p | Constraints.KL2 => OL2 p aux | Constraints.KL2sq => OL2sq p
+  | Constraints.KUnimodal => OUnimodal | Constraints.KNormalize => ONormalize | Constraints.KSimplex => OSimplex p
+  | Constraints.KNormSparsity => ONormSparsity (Z.to_nat (Qnum p)) aux | Constraints.KSoftSparsity => OSoftSparsity p
+  | Constraints.KSmooth => OSmooth p | Constraints.KMonotone => OMonotone false | Constraints.KHardSparsity => OHard (Z.to_nat (Qnum p))
+  end.
+(* None: the model says validate_constraints raises *)
+Definition resolve_op (o : op) : option op :=
   match o with
-  | ORouted n ord specs aux => match validate n ord specs with Some (c, p) => op_of c p aux | None => OIdentity end
-  | _ => o
+  | ORouted n ord specs aux =>
+      match validate_kwargs n ord specs with
+      | Ok (Some (k, p)) => Some (op_of k p aux)
+      | Ok None => Some OIdentity
+      | Err => None
+      end
+  | ORejected _ _ _ => None
+  | _ => Some o
   end.
 
 Definition run (o : op) (rows : M) : M :=
@@ -51,7 +63,7 @@ Definition run (o : op) (rows : M) : M :=
   | OIdentity => rows
   | OSvt t U s V => svd_thresholding_with Qops U s V t
   | OProcrustes U s V => procrustes_with Qops U V
-  | ORouted _ _ _ _ => rows        (* never reached: cases are resolved first *)
+  | ORouted _ _ _ _ | ORejected _ _ _ => rows        (* never reached: cases are resolved first *)
   end.
 
 Fixpoint rows_close (atol rtol : Q) (a b : M) : bool :=
@@ -116,7 +128,10 @@ Definition uni_ok (atol rtol eps : Q) (rows out : M) : bool :=
 Definition case := (nat * op * M * M * Q * Q)%type.
 Definition agree (c : case) : bool :=
   let '(_, o0, rows, out, atol, rtol) := c in
-  let o := resolve o0 in
+  match o0 with
+  | ORejected n ord specs => match validate_kwargs n ord specs with Err => true | Ok _ => false end
+  | _ =>
+  match resolve_op o0 with None => false | Some o =>
   model_cert atol rtol o rows &&
   match o with
   | OHard k => same_shape rows out && valid_ht Qops k (concat rows) (concat out)
@@ -125,6 +140,6 @@ Definition agree (c : case) : bool :=
   | OUnimodal => uni_ok atol rtol (Qred (atol * 1000)) rows out
   | OProcrustes _ _ _ => rows_close (1 # 1000000000) rtol (run o rows) out
   | _ => rows_close atol rtol (run o rows) out
-  end.
+  end end end.
 Definition ident (c : case) : nat := let '(i, _, _, _, _, _) := c in i.
 Definition failing := failing_ids agree ident.
